@@ -631,6 +631,18 @@ type c07Scn struct {
 	rng  *rand.Rand
 	name string
 	log  []string
+	// acctOnly: the scenarios are replayed for C03, which judges the accounting invariant only
+	acctOnly bool
+}
+
+func (s *c07Scn) viol(suffix, what string, detail any) {
+	if s.acctOnly {
+		if strings.HasPrefix(suffix, "acct:") {
+			s.r.Violation("C03:forced-schedule:"+s.name+":"+suffix, what, detail)
+		}
+		return
+	}
+	s.r.Violation("C07:scenario:"+s.name+":"+suffix, what, detail)
 }
 
 func (s *c07Scn) detail(extra any) map[string]any {
@@ -650,10 +662,10 @@ func (s *c07Scn) finish(c disk.Cache, reached bool) {
 		bad = append(bad, fmt.Sprintf("reservedSize=%d at quiescence", snap.ReservedSize))
 	}
 	if len(bad) > 0 {
-		s.r.Violation("C07:scenario:"+s.name+":acct:"+classify(bad[0]), fmt.Sprintf("accounting diverged in forced schedule %q: %v", s.name, bad), s.detail(bad))
+		s.viol("acct:"+classify(bad[0]), fmt.Sprintf("accounting diverged in forced schedule %q: %v", s.name, bad), s.detail(bad))
 	}
 	if d, _, verdict := lib.CheckDirQuiescent(c, true); verdict == "violated" {
-		s.r.Violation("C07:scenario:"+s.name+":dir:"+dirClass(d), fmt.Sprintf("directory != index after forced schedule %q: %s", s.name, d.String()), s.detail(d))
+		s.viol("dir:"+dirClass(d), fmt.Sprintf("directory != index after forced schedule %q: %s", s.name, d.String()), s.detail(d))
 	}
 	s.r.Eval()
 	s.r.Distinct("scenario", s.name, reached)
@@ -713,16 +725,16 @@ func (s *c07Scn) readerVsOverwrite(storage string, kind cache.EntryKind) {
 	if reached && perr == nil {
 		switch {
 		case rr.err != nil:
-			s.r.Violation("C07:scenario:"+s.name+":read-error", fmt.Sprintf("a read overlapping an overwrite failed: %v", rr.err), s.detail(nil))
+			s.viol("read-error", fmt.Sprintf("a read overlapping an overwrite failed: %v", rr.err), s.detail(nil))
 		case !rr.hit:
-			s.r.Violation("C07:scenario:"+s.name+":spurious-miss", "a key that was present throughout (overwritten without space pressure) was reported missing to a concurrent reader", s.detail(nil))
+			s.viol("spurious-miss", "a key that was present throughout (overwritten without space pressure) was reported missing to a concurrent reader", s.detail(nil))
 		case !bytes.Equal(rr.b, v1) && !bytes.Equal(rr.b, v2):
-			s.r.Violation("C07:scenario:"+s.name+":torn-read", fmt.Sprintf("reader got %d bytes that are neither the old nor the new value", len(rr.b)), s.detail(nil))
+			s.viol("torn-read", fmt.Sprintf("reader got %d bytes that are neither the old nor the new value", len(rr.b)), s.detail(nil))
 		}
 		// the acknowledged overwrite must still be there
 		b, hit, err := readAllOf(c, kind, key, -1)
 		if err != nil || !hit || !bytes.Equal(b, v2) {
-			s.r.Violation("C07:scenario:"+s.name+":acknowledged-upload-lost", fmt.Sprintf("after the schedule the acknowledged overwrite is not readable (hit=%v err=%v)", hit, err), s.detail(nil))
+			s.viol("acknowledged-upload-lost", fmt.Sprintf("after the schedule the acknowledged overwrite is not readable (hit=%v err=%v)", hit, err), s.detail(nil))
 		}
 	}
 	s.finish(c, reached)
@@ -773,7 +785,7 @@ func (s *c07Scn) twoReadersCorrupt() {
 			defer wg.Done()
 			b, hit, _ := readAllOf(c, cache.CAS, h, int64(len(blobs[1])))
 			if hit && !bytes.Equal(b, blobs[1]) {
-				s.r.Violation("C07:scenario:"+s.name+":wrong-bytes", "read of a corrupt entry returned wrong bytes", s.detail(nil))
+				s.viol("wrong-bytes", "read of a corrupt entry returned wrong bytes", s.detail(nil))
 			}
 		}()
 	}
@@ -815,7 +827,7 @@ func (s *c07Scn) failedReaderVsReupload() {
 	if reached && perr == nil {
 		got, hit, err := readAllOf(c, cache.CAS, h, int64(len(b)))
 		if err != nil || !hit || !bytes.Equal(got, b) {
-			s.r.Violation("C07:scenario:"+s.name+":acknowledged-upload-lost", fmt.Sprintf("an upload acknowledged while a reader was discarding the corrupt predecessor is gone afterwards (hit=%v err=%v) although nothing was evicted for space", hit, err), s.detail(nil))
+			s.viol("acknowledged-upload-lost", fmt.Sprintf("an upload acknowledged while a reader was discarding the corrupt predecessor is gone afterwards (hit=%v err=%v) although nothing was evicted for space", hit, err), s.detail(nil))
 		}
 	}
 	s.finish(c, reached)
@@ -856,10 +868,10 @@ func (s *c07Scn) commitRefused(storage string) {
 	}{{ka, a, ea}, {kb, b, eb}} {
 		got, hit, _ := readAllOf(c, cache.RAW, x.k, -1)
 		if x.err == nil && (!hit || !bytes.Equal(got, x.v)) {
-			s.r.Violation("C07:scenario:"+s.name+":acknowledged-upload-lost", "an acknowledged upload is not readable afterwards (no other traffic)", s.detail(nil))
+			s.viol("acknowledged-upload-lost", "an acknowledged upload is not readable afterwards (no other traffic)", s.detail(nil))
 		}
 		if x.err != nil && hit {
-			s.r.Violation("C07:scenario:"+s.name+":refused-upload-present", "an upload that returned an error is present afterwards", s.detail(nil))
+			s.viol("refused-upload-present", "an upload that returned an error is present afterwards", s.detail(nil))
 		}
 	}
 	s.finish(c, r1 && r2)
@@ -897,11 +909,11 @@ func (s *c07Scn) fetchVsUpload(storage string) {
 	lib.WaitEvictionsDrained(c, 5*time.Second)
 	s.log = append(s.log, fmt.Sprintf("fetch at commit=%v upload err=%v fetch hit=%v err=%v", reached, perr, rr.hit, rr.err))
 	if rr.hit && !bytes.Equal(rr.b, b) {
-		s.r.Violation("C07:scenario:"+s.name+":torn-read", "proxy fetch racing with an upload returned wrong bytes", s.detail(nil))
+		s.viol("torn-read", "proxy fetch racing with an upload returned wrong bytes", s.detail(nil))
 	}
 	got, hit, err := readAllOf(c, cache.CAS, h, int64(len(b)))
 	if perr == nil && (err != nil || !hit || !bytes.Equal(got, b)) {
-		s.r.Violation("C07:scenario:"+s.name+":acknowledged-upload-lost", fmt.Sprintf("blob uploaded while a fetch of the same key committed is not readable (hit=%v err=%v)", hit, err), s.detail(nil))
+		s.viol("acknowledged-upload-lost", fmt.Sprintf("blob uploaded while a fetch of the same key committed is not readable (hit=%v err=%v)", hit, err), s.detail(nil))
 	}
 	s.finish(c, reached)
 }
@@ -937,7 +949,56 @@ func (s *c07Scn) removerVsReupload(storage string) {
 	if reached && perr == nil {
 		// the new version may itself have been evicted only by space pressure: none was applied after the re-upload
 		if err != nil || !hit || !bytes.Equal(got, v2) {
-			s.r.Violation("C07:scenario:"+s.name+":acknowledged-upload-lost", fmt.Sprintf("key re-uploaded while its evicted predecessor awaited deletion is not readable afterwards (hit=%v err=%v)", hit, err), s.detail(nil))
+			s.viol("acknowledged-upload-lost", fmt.Sprintf("key re-uploaded while its evicted predecessor awaited deletion is not readable afterwards (hit=%v err=%v)", hit, err), s.detail(nil))
+		}
+	}
+	s.finish(c, reached)
+}
+
+// S8: reader about to drop a corrupt entry while space pressure evicts the key (and, variant, the key is uploaded again).
+func (s *c07Scn) failedReaderVsEviction(reupload bool) {
+	s.name = "failed-reader-vs-eviction"
+	if reupload {
+		s.name += "-and-reupload"
+	}
+	dir := s.pool.Get()
+	defer s.pool.Put(dir)
+	c, _, err := lib.NewCache(lib.ServerOpts{Dir: dir, MaxSize: 40 * lib.KiB, Storage: "zstd"})
+	if err != nil {
+		return
+	}
+	ctx := context.Background()
+	b := lib.GenBlob(s.rng, 5000+s.rng.IntN(2000), "random", s.name)
+	h := lib.Sha256Hex(b)
+	_ = c.Put(ctx, cache.CAS, h, int64(len(b)), bytes.NewReader(b))
+	if !corruptHeader(c, "cas/"+h) {
+		return
+	}
+	g := s.hc.Gate("get.beforeFailedRemove", "cas/"+h, 1)
+	done := make(chan struct{})
+	go func() {
+		defer close(done)
+		_, _, _ = readAllOf(c, cache.CAS, h, int64(len(b)))
+	}()
+	reached := g.WaitArrived(5 * time.Second)
+	// space pressure: evict the key while the reader still holds its stale element
+	for i := 0; i < 8; i++ {
+		f := lib.GenBlob(s.rng, 6000, "random", fmt.Sprintf("%s-f%d", s.name, i))
+		_ = c.Put(ctx, cache.CAS, lib.Sha256Hex(f), int64(len(f)), bytes.NewReader(f))
+	}
+	evicted, _ := c.Contains(ctx, cache.CAS, h, int64(len(b)))
+	var perr error
+	if reupload {
+		perr = c.Put(ctx, cache.CAS, h, int64(len(b)), bytes.NewReader(b))
+	}
+	g.Release()
+	<-done
+	lib.WaitEvictionsDrained(c, 5*time.Second)
+	s.log = append(s.log, fmt.Sprintf("reader at removal point=%v; key still indexed after pressure=%v; reupload=%v err=%v", reached, evicted, reupload, perr))
+	if reached && reupload && perr == nil {
+		got, hit, err := readAllOf(c, cache.CAS, h, int64(len(b)))
+		if err != nil || !hit || !bytes.Equal(got, b) {
+			s.viol("acknowledged-upload-lost", fmt.Sprintf("an upload acknowledged after the key had been evicted, while a reader still held the stale corrupt entry, is gone afterwards (hit=%v err=%v)", hit, err), s.detail(nil))
 		}
 	}
 	s.finish(c, reached)
@@ -993,10 +1054,10 @@ func (s *c07Scn) failFastConcurrentMisses(storage string) {
 	s.log = append(s.log, fmt.Sprintf("%d referenced blobs (1/3 absent everywhere), 96 lookups: hits=%d errors=%d", len(ar.OutputFiles), hits.Load(), errs.Load()))
 	s.r.CountN("scenario.failfast.lookups", 96)
 	if hits.Load() > 0 {
-		s.r.Violation("C07:scenario:"+s.name+":hit-with-missing-blob", fmt.Sprintf("%d of 96 concurrent dependency checks answered a hit although a third of the referenced blobs exist nowhere", hits.Load()), s.detail(nil))
+		s.viol("hit-with-missing-blob", fmt.Sprintf("%d of 96 concurrent dependency checks answered a hit although a third of the referenced blobs exist nowhere", hits.Load()), s.detail(nil))
 	}
 	if errs.Load() > 0 {
-		s.r.Violation("C07:scenario:"+s.name+":error", fmt.Sprintf("%d of 96 concurrent dependency checks failed with an error caused by absent blobs", errs.Load()), s.detail(nil))
+		s.viol("error", fmt.Sprintf("%d of 96 concurrent dependency checks failed with an error caused by absent blobs", errs.Load()), s.detail(nil))
 	}
 	s.finish(c, true)
 }
@@ -1131,7 +1192,25 @@ func runC07(r *lib.Run) {
 	}
 	t0 := time.Now()
 	// targeted scenarios
-	scn := &c07Scn{r: r, hc: hc, pool: pool, rng: rng}
+	runGateScenarios(r, hc, pool, rng, nScn, false)
+	r.CountN("time_ms.scenarios", time.Since(t0).Milliseconds())
+	t1 := time.Now()
+	runC07Histories(r, hc, pool, rng, nHist, child)
+	r.CountN("time_ms.histories", time.Since(t1).Milliseconds())
+	for k, v := range hc.Hits() {
+		r.CountN("hook."+k, v)
+	}
+	r.CountN("gate.timeouts", hc.GateTimeouts.Load())
+	if !child {
+		t2 := time.Now()
+		runRaceChild(r, r.N(1, 5))
+		r.CountN("time_ms.race_child", time.Since(t2).Milliseconds())
+	}
+}
+
+// runGateScenarios drives the targeted schedule-forcing scenarios n times (alternating storage modes).
+func runGateScenarios(r *lib.Run, hc *lib.HookCtl, pool *lib.DirPool, rng *rand.Rand, nScn int, acctOnly bool) {
+	scn := &c07Scn{r: r, hc: hc, pool: pool, rng: rng, acctOnly: acctOnly}
 	for i := 0; i < nScn; i++ {
 		st := []string{"zstd", "uncompressed"}[i%2]
 		for _, f := range []func(){
@@ -1144,6 +1223,8 @@ func runC07(r *lib.Run) {
 			func() { scn.fetchVsUpload(st) },
 			func() { scn.removerVsReupload(st) },
 			func() { scn.failFastConcurrentMisses(st) },
+			func() { scn.failedReaderVsEviction(false) },
+			func() { scn.failedReaderVsEviction(true) },
 		} {
 			scn.log = nil
 			f()
@@ -1152,8 +1233,9 @@ func runC07(r *lib.Run) {
 			break
 		}
 	}
-	r.CountN("time_ms.scenarios", time.Since(t0).Milliseconds())
-	t1 := time.Now()
+}
+
+func runC07Histories(r *lib.Run, hc *lib.HookCtl, pool *lib.DirPool, rng *rand.Rand, nHist int, child bool) {
 	// random concurrent histories
 	for i := 0; i < nHist && r.Violations() <= 12; i++ {
 		o := c07Opts{
@@ -1183,16 +1265,6 @@ func runC07(r *lib.Run) {
 		if i < 2 {
 			r.Sample(fmt.Sprintf("%+v", o))
 		}
-	}
-	r.CountN("time_ms.histories", time.Since(t1).Milliseconds())
-	for k, v := range hc.Hits() {
-		r.CountN("hook."+k, v)
-	}
-	r.CountN("gate.timeouts", hc.GateTimeouts.Load())
-	if !child {
-		t2 := time.Now()
-		runRaceChild(r, r.N(1, 5))
-		r.CountN("time_ms.race_child", time.Since(t2).Milliseconds())
 	}
 }
 
